@@ -204,7 +204,7 @@ func runCheck(id, only string, noEv bool) int {
 			ssaPkgOf[filepath.Dir(p.GoFiles[0])] = spkgs[i]
 		}
 	}
-	var targets []*Target
+	var targets, structTargets []*Target
 	for _, d := range dirs {
 		pp := pkgPathOf[d.PkgDir]
 		switch d.Kind {
@@ -231,6 +231,9 @@ func runCheck(id, only string, noEv bool) int {
 				if strings.HasPrefix(x, "decreases=") {
 					a.Decr = x[len("decreases="):]
 				}
+				if x == "bounded" {
+					a.Bounded = true
+				}
 				if strings.HasPrefix(x, "modifies=") {
 					a.Modifies = strings.Split(x[len("modifies="):], ",")
 				}
@@ -245,6 +248,23 @@ func runCheck(id, only string, noEv bool) int {
 				return die(2, id, "%s:%d: function %s not found", d.File, d.Line, d.Fn)
 			}
 			e.opaque[fn.String()] = true
+		case "structural": // //@ structural <fn> defer-first=<callee> props=...
+			if !hasProp(d, id) {
+				continue
+			}
+			fn := resolveFn(all, pp, d.Fn)
+			if fn == nil {
+				return die(2, id, "%s:%d: function %s not found", d.File, d.Line, d.Fn)
+			}
+			ok, why := structuralDeferFirst(fn, argVal(d, "defer-first"))
+			o := &Oblig{T: &Target{D: d, Fn: fn, Short: shortName(fn.String())}, Name: shortName(fn.String()) + "#structural.defer-first[" + argVal(d, "defer-first") + "]", Expect: "unsat", Triv: ok, Result: "unsat"}
+			if !ok {
+				o.Triv, o.Result, o.Output = false, "unknown", "structural check failed: "+why
+				o.Script = "(check-sat)" // never sent: the verdict is decided on the CFG
+				o.decided = true
+			}
+			e.obs = append(e.obs, o)
+			structTargets = append(structTargets, o.T)
 		case "global":
 			fn := resolveFn(all, pp, d.Fn)
 			if fn == nil {
@@ -301,7 +321,7 @@ func runCheck(id, only string, noEv bool) int {
 			targets = append(targets, &Target{D: d, Fn: fn, Short: shortName(fn.String())})
 		}
 	}
-	if len(targets) == 0 {
+	if len(targets)+len(structTargets) == 0 {
 		return die(2, id, "no function under contract for this property")
 	}
 	for _, g := range e.globals {
@@ -328,7 +348,7 @@ func runCheck(id, only string, noEv bool) int {
 	e.discharge(tmo)
 	tSolve := time.Since(tSolve0)
 	// 5. report
-	rep := e.report(id, cfg, targets, contractFiles)
+	rep := e.report(id, cfg, append(targets, structTargets...), contractFiles)
 	rep.LoadS, rep.GenS, rep.SolveS = tLoad.Seconds(), tGen.Seconds(), tSolve.Seconds()
 	rep.WallS = time.Since(t0).Seconds()
 	code := rep.finish(id, cfg, only == "" && !noEv)
